@@ -9,18 +9,15 @@ META = {
     "technique": "Coq proof (invariant over arbitrary arrival histories of the JoinBuffer model incl. the std binary search, expiry queue, gc interval and per-key cap) + model/impl differential compared verbatim + brute-force oracle of the property text",
     "design_ref": "DESIGN.md §7 C15, §12 Join",
     "level_text": "Theorems C15_* in coq/theories/Join/Props.v: for every configuration with cap >= 1 and window >= 0 and every arrival history with non-decreasing timestamps, each add_event of the model returns exactly the specified correlation (an output iff every source has a same-key arrival with ts >= t - W, built from the most recently arrived one per source); for histories outside that class the statement is refuted by three machine-checked witnesses that are replayed against the real JoinBuffer on every run; the model is tied to the Rust by a differential run on every check",
-    "level_note": "Out-of-order histories are a recorded known-finding class (ooo-history), not proved. 'Within the window' is read as ts >= t - W (the only bound the code and DESIGN.md use). Proved about the choice of events; the field merge of create_correlated_event is modelled and compared verbatim but only its per-source prefixed fields are judged by the oracle. find_common_key_field (source without configured key) is not modelled. Engine-level join programs are not driven (JoinBuffer::add_event directly). slice::partition_point is modelled after the toolchain's std algorithm and tied to it by direct comparison on random slices each run.",
+    "level_note": "Out-of-order histories are a recorded known-finding class (ooo-history), not proved. 'Within the window' is read as ts >= t - W (the only bound the code and DESIGN.md use). Proved about the choice of events; the field merge of create_correlated_event is modelled and compared verbatim but only its per-source prefixed fields are judged by the oracle. find_common_key_field (source without configured key) is not modelled. Engine-level join programs (stream S_i = T_i; join(..).on(..).window(..).emit(..)) are driven through Engine::process and compared with the model's choice of events and the oracle; the engine's key/window extraction itself is not modelled. slice::partition_point is modelled after the toolchain's std algorithm and tied to it by direct comparison on random slices each run.",
 }
 CLASS_OOO = "ooo-history"
-CLASS_SHADOW = "type-shadows-source"
 
 
 def classes_of(c):
     cl = []
     if not J.is_sorted(c):
         cl.append(CLASS_OOO)
-    if any(ty != s and ty in c["sources"] for s, ty, _, _ in c["ops"]):
-        cl.append(CLASS_SHADOW)
     return cl
 
 
@@ -38,7 +35,7 @@ def cases_for(run):
 def check(run):
     run.rule = ("arrival histories on JoinBuffer::add_event: 2- and 3-way joins, windows 1..5 ticks with tick 1/20/100/1000/5000 ms (gc interval clamped low, proportional, clamped high), "
                 "1..3 key values, per-source key fields, caps default/1/2/3, time steps 0 .. beyond the window and the gc interval, in-order with ties and out-of-order streams, events missing the key, "
-                "event types equal to / different from the source name; plus every in-order 2-source history of 4 (thorough: 5) arrivals with steps 0/1/3 for W=2, cap default and 1; "
+                "event types equal to / different from the source name (also named like another source); 2- and 3-way join programs through the Engine (windows 100ms/500ms/2s/1m); plus every in-order 2-source history of 4 (thorough: 5) arrivals with steps 0/1/3 for W=2, cap default and 1; "
                 "non-trivial = >= 1 joined output and >= 1 refused arrival with both sources seen; distinct = distinct (config, history)")
     run.trusted += ["Coq 8.16.1 kernel + vm_compute",
                     "hand-written model coq/theories/Join/Model.v tied by differential run (every add_event result incl. merged field order and the buffered-event total compared verbatim)",
@@ -132,6 +129,49 @@ def check(run):
             sp = mspec.split(";") if c["ops"] else []
             if [e is None for e in exp] != [s == "-" for s in sp]:
                 run.tie_broken("Coq specification Join/Spec.v vs Python oracle on %s" % json.dumps(J.case_json(c)), "spec %s\noracle %s" % (mspec, exp))
+    # --- Engine path: join programs through Engine::process (routing, key and window extraction in engine/mod.rs)
+    ecases = [J.gen_engine_case(run.rng) for _ in range(110 if run.tier == "quick" else 3000)]
+    eans = harness.run_jsonl(binpath, [J.j_engine(c) for c in ecases])
+    try:
+        emodel = coqtools.coq_eval("C15e", J.IMPORTS, [J.g_case(c) for c in ecases], shard=max(8, len(ecases) // 16 + 1))
+    except RuntimeError as e:
+        run.tie_broken("model evaluation (coqc engine cases)", str(e))
+        emodel = [None] * len(ecases)
+    n_eviol = 0
+    n_ecorr = 0
+    for c, ans, ms in zip(ecases, eans, emodel):
+        got = J.engine_choice(c, ans)
+        run.case(("engine", json.dumps(J.case_json(c), sort_keys=True)) if got and any(g is not None for g in got) and any(g is None for g in got) else None)
+        run.count("engine kind=%s nsrc=%d window=%s" % (c["kind"], len(c["sources"]), c["wname"]))
+        fails = J.judge_engine(c, ans)
+        if fails:
+            cl = classes_of(c)
+            run.count("engine_oracle_fail" + ("_known" if cl else ""))
+            if cl:
+                n_known += 1
+                run.violation(fails[0], {"case": J.case_json(c), "program": J.engine_program(c)}, classes=cl)
+            else:
+                n_eviol += 1
+                if n_eviol <= 2:
+                    def still_e(cc):
+                        a2 = harness.run_jsonl(binpath, [J.j_engine(cc)])[0]
+                        return bool(J.judge_engine(cc, a2)) and not classes_of(cc)
+                    cc = dict(c)
+                    small = J.shrink(cc, still_e)
+                    a2 = harness.run_jsonl(binpath, [J.j_engine(small)])[0]
+                    run.violation("; ".join(J.judge_engine(small, a2))[:700],
+                                  {"engine": True, "program": J.engine_program(small), "case": J.case_json(small), "implementation": a2,
+                                   "expected_choice": J.expected(small),
+                                   "contradicts": "theorem C15_inorder in coq/theories/Join/Props.v, through the Engine's join routing"})
+        if ms is not None and c["ops"]:
+            mc = J.model_choice(c, ms.split("|")[0])
+            if mc != got:
+                n_ecorr += 1
+                if n_ecorr <= 2:
+                    run.tie_broken("correspondence Join/Model.v vs Engine join program on %s" % json.dumps(J.case_json(c)),
+                                   "program:\n%s\nengine chose %s\nmodel chose  %s" % (J.engine_program(c), got, mc))
+    run.extra["engine_oracle_failures_outside_known_classes"] = n_eviol
+    run.extra["engine_disagreements"] = n_ecorr
     run.extra["oracle_failures_outside_known_classes"] = n_viol
     run.extra["oracle_failures_in_known_classes"] = n_known
     run.extra["disagreements"] = n_corr
@@ -141,8 +181,13 @@ def replay(run, path):
     r = json.load(open(path))["replay"]
     ok, bindir, lg = harness.build("vp-join")
     c = J.case_from_json(r["case"])
-    ans = harness.run_jsonl(os.path.join(bindir, "vp-join"), [J.j_case(c)])[0]
-    fails = J.judge(c, ans)
+    if r.get("engine"):
+        c["wname"] = dict((w, n) for n, w in J.ENGINE_WINDOWS)[c["window"]]
+        ans = harness.run_jsonl(os.path.join(bindir, "vp-join"), [J.j_engine(c)])[0]
+        fails = J.judge_engine(c, ans)
+    else:
+        ans = harness.run_jsonl(os.path.join(bindir, "vp-join"), [J.j_case(c)])[0]
+        fails = J.judge(c, ans)
     run.case(("replay",), {"case": r["case"]})
     run.case(("replay2",))
     if fails:
